@@ -7,15 +7,18 @@ checkers are sound.  Tie, checked on every run (CERTIFICATE correspondence): the
 sphere of ContactGeometry::TriangleMesh are dumped through the public accessors and verified by the EXTRACTED checker
 (tree_ok, tree_covers, adjacency_ok, sphere_contains); the implementation's tree-pruned findNearestPoint / intersectsRay answers
 are compared with the extracted brute force over all faces (1e-9); OrientedBoundingBox(points) and Geo bounding spheres of
-random point clouds are checked to contain their points by the extracted predicates."""
+random point clouds are checked to contain their points by the extracted predicates.  OrientedBoundingBox::intersectsRay (the test the
+tree prunes rays with) has its own proved model (C36_boxray_*: sound, complete, distance = entry parameter, incl. exactly zero
+direction components) and its own correspondence stream (gen_boxrays); axis-aligned brick meshes with axis-parallel rays exercise it
+through TriangleMesh::intersectsRay.  File formats: checks/C36_io.py."""
 import os, sys, math, shutil
 from vlib import *
 import C36_io
 
-PROPS = ['Props/Properties_C36.v']
+PROPS = ['Props/Properties_C36.v', 'Props/Properties_C36_boxray.v']
 EXTRACT = """From Coq Require Import Extraction ExtrOcamlBasic.
-Require Import Num Vec C36_Model.
-Extraction "c36model.ml" closest_bary closest_pt_tri dist2_pt_tri nearest_brute inside_brute ray_brute ray_hits inside_parity vert
+Require Import Num Vec C36_Model C36_boxray_Model.
+Extraction "c36model.ml" box_ray box_ray_frame closest_bary closest_pt_tri dist2_pt_tri nearest_brute inside_brute ray_brute ray_hits inside_parity vert
   box_contains box_dist2 sphere_contains tree_ok tree_covers adjacency_ok.
 """
 
@@ -49,6 +52,30 @@ def grid_patch(n):
             a = i * (n + 1) + j; b = a + 1; c = a + n + 1; d = c + 1; fs += [(a, c, b), (b, c, d)]
     return vs, fs
 
+def brick_mesh(a, b, c, nx, ny, nz):
+    """closed, axis-aligned brick [0,a]x[0,b]x[0,c] whose faces are nx x ny x nz grids of quads split into two triangles"""
+    idx = {}; vs = []; fs = []
+    def vid(i, j, k):
+        if (i, j, k) not in idx: idx[(i, j, k)] = len(vs); vs.append([a * i / nx, b * j / ny, c * k / nz])
+        return idx[(i, j, k)]
+    def quad(p0, p1, p2, p3, outward):
+        q = [vs[vid(*p)] for p in (p0, p1, p2)]
+        u = [q[1][t] - q[0][t] for t in range(3)]; w = [q[2][t] - q[0][t] for t in range(3)]
+        n = [u[1] * w[2] - u[2] * w[1], u[2] * w[0] - u[0] * w[2], u[0] * w[1] - u[1] * w[0]]
+        ids = [vid(*p) for p in (p0, p1, p2, p3)]
+        if sum(n[t] * outward[t] for t in range(3)) < 0: ids = ids[::-1]
+        fs.append((ids[0], ids[1], ids[2])); fs.append((ids[0], ids[2], ids[3]))
+    for i in range(nx):
+        for j in range(ny):
+            quad((i, j, 0), (i + 1, j, 0), (i + 1, j + 1, 0), (i, j + 1, 0), (0, 0, -1)); quad((i, j, nz), (i + 1, j, nz), (i + 1, j + 1, nz), (i, j + 1, nz), (0, 0, 1))
+    for i in range(nx):
+        for k in range(nz):
+            quad((i, 0, k), (i + 1, 0, k), (i + 1, 0, k + 1), (i, 0, k + 1), (0, -1, 0)); quad((i, ny, k), (i + 1, ny, k), (i + 1, ny, k + 1), (i, ny, k + 1), (0, 1, 0))
+    for j in range(ny):
+        for k in range(nz):
+            quad((0, j, k), (0, j + 1, k), (0, j + 1, k + 1), (0, j, k + 1), (-1, 0, 0)); quad((nx, j, k), (nx, j + 1, k), (nx, j + 1, k + 1), (nx, j, k + 1), (1, 0, 0))
+    return vs, fs
+
 def rand_rot(rng):
     while True:
         q = [rng.gauss(0, 1) for _ in range(4)]; n = math.sqrt(sum(x * x for x in q))
@@ -58,7 +85,16 @@ def rand_rot(rng):
             [2 * (x * z - y * w), 2 * (y * z + x * w), 1 - 2 * (x * x + y * y)]]
 
 def gen_mesh(rng):
-    kind = rng.choices(['tetra', 'box', 'sph1', 'sph2', 'patch', 'sliver'], [2, 3, 3, 2, 0.5, 1.5])[0]
+    kind = rng.choices(['tetra', 'box', 'sph1', 'sph2', 'patch', 'sliver', 'brick'], [2, 2, 3, 2, 0.5, 1.5, 3])[0]
+    if kind == 'brick':
+        # exactly axis-aligned bricks of very unequal extents: their OBB-tree boxes come out axis-aligned and thin in different
+        # directions, so that axis-parallel rays have EXACTLY zero direction components in the box frames
+        dims = rng.sample([rng.choice([0.1, 0.2, 0.25]), rng.choice([0.5, 1.0]), rng.choice([2.0, 3.0, 4.0])], 3)
+        if rng.random() < 0.25: dims = [rng.choice([0.2, 0.5, 1.0, 2.0, 3.0]) for _ in range(3)]
+        n = [rng.randint(1, 5) for _ in range(3)]
+        vs, fs = brick_mesh(dims[0], dims[1], dims[2], n[0], n[1], n[2])
+        t = [rng.choice([0.0, 0.0, -0.5, 1.0, -dims[i] / 2]) for i in range(3)]
+        return 'brick', [[v[i] + t[i] for i in range(3)] for v in vs], fs
     if kind == 'tetra': vs, fs = tetra()
     elif kind == 'box': vs, fs = box_mesh()
     elif kind == 'sph1': vs, fs = octa_sphere(1)
@@ -89,7 +125,16 @@ def gen_case(rng, nq):
     for _ in range(nq):
         r = rad * rng.choice([0.3, 0.8, 1.0, 1.5, 3.0]); p = [c[i] + rng.uniform(-r, r) for i in range(3)]
         lines.append('N %.17g %.17g %.17g' % tuple(p))
-    for _ in range(nq):
+    lo = [min(v[i] for v in vs) for i in range(3)]; hi = [max(v[i] for v in vs) for i in range(3)]
+    for q in range(nq):
+        if kind == 'brick' and q % 4 != 3:
+            # a ray exactly parallel to a coordinate axis (or with one exactly zero component), through or beside the brick
+            ax = rng.randrange(3); sg = rng.choice([-1.0, 1.0]); o = [rng.uniform(lo[i] - 0.2 * (hi[i] - lo[i]), hi[i] + 0.2 * (hi[i] - lo[i])) for i in range(3)]
+            o[ax] = rng.choice([lo[ax] - rng.uniform(0.1, 2), hi[ax] + rng.uniform(0.1, 2), rng.uniform(lo[ax], hi[ax])])
+            d = [0.0, 0.0, 0.0]; d[ax] = sg
+            if rng.random() < 0.25: d[(ax + 1) % 3] = rng.uniform(-1, 1)          # one component exactly zero
+            n = math.sqrt(sum(x * x for x in d))
+            lines.append('R %.17g %.17g %.17g %.17g %.17g %.17g' % tuple(o + [x / n if x else 0.0 for x in d])); continue
         o = [c[i] + rng.uniform(-2, 2) * rad for i in range(3)]
         if rng.random() < 0.7: tgt = [c[i] + rng.uniform(-0.8, 0.8) * rad for i in range(3)]
         else: tgt = [c[i] + rng.uniform(-3, 3) * rad for i in range(3)]
@@ -107,6 +152,40 @@ def gen_case(rng, nq):
     lines.append('P %d ' % n + ' '.join('%.17g' % x for p in pts for x in p))
     lines.append('END')
     return kind, lines
+
+PERMS = [[[1, 0, 0], [0, 1, 0], [0, 0, 1]], [[0, 0, 1], [1, 0, 0], [0, 1, 0]], [[0, 1, 0], [0, 0, 1], [1, 0, 0]],
+         [[-1, 0, 0], [0, -1, 0], [0, 0, 1]], [[1, 0, 0], [0, -1, 0], [0, 0, -1]], [[0, 0, -1], [-1, 0, 0], [0, 1, 0]]]     # proper rotations with exact entries
+def gen_boxrays(rng, nbox, nray):
+    """OrientedBoundingBox::intersectsRay alone: boxes of very different extents, exactly axis-aligned (identity or a signed axis
+    permutation, so that special directions are EXACTLY zero in the box frame) or randomly rotated; rays given in the box frame and
+    mapped to the world: each direction component exactly 0 in turn (and two at once), origins inside / on a face / outside in every
+    slab region, rays towards and away from the box, grazing along faces"""
+    lines = []; kinds = {}
+    for b in range(nbox):
+        exact = rng.random() < 0.7
+        R = rng.choice(PERMS) if exact else rand_rot(rng)
+        p = [rng.choice([0.0, 0.5, -1.0, 2.0]) for _ in range(3)] if exact else [rng.uniform(-2, 2) for _ in range(3)]
+        sz = [rng.choice([0.05, 0.2, 0.2, 1.0, 1.0, 3.0, 5.0]) for _ in range(3)]
+        lines.append('B ' + ' '.join('%.17g' % x for row in R for x in row) + ' %.17g %.17g %.17g %.17g %.17g %.17g' % tuple(p + sz))
+        for _ in range(nray):
+            def coord(k):
+                c = rng.random()
+                if c < 0.35: return rng.uniform(0, sz[k])                                   # inside the slab
+                if c < 0.5 and exact: return rng.choice([0.0, sz[k]])                       # exactly on a face
+                if c < 0.75: return -rng.uniform(0.01, 2 * max(sz))
+                return sz[k] + rng.uniform(0.01, 2 * max(sz))
+            o = [coord(k) for k in range(3)]
+            mode = rng.choice(['axis', 'axis', 'plane', 'plane', 'generic', 'aimed', 'aimed']) if exact else rng.choice(['generic', 'aimed', 'aimed'])
+            if mode == 'axis': d = [0.0, 0.0, 0.0]; d[rng.randrange(3)] = rng.choice([-1.0, 1.0])
+            elif mode == 'plane': d = [rng.uniform(-1, 1) for _ in range(3)]; d[rng.randrange(3)] = 0.0
+            elif mode == 'aimed': tgt = [rng.uniform(0, sz[k]) for k in range(3)]; d = [tgt[k] - o[k] for k in range(3)]; d = d if rng.random() < 0.85 else [-x for x in d]
+            else: d = [rng.uniform(-1, 1) for _ in range(3)]
+            if mode == 'aimed' and exact and rng.random() < 0.3: d[rng.randrange(3)] = 0.0
+            if sum(x * x for x in d) < 1e-6: d = [1.0, 0.0, 0.0]
+            kinds[mode + ('' if exact else ':rotated')] = kinds.get(mode + ('' if exact else ':rotated'), 0) + 1
+            wo = [sum(R[i][j] * o[j] for j in range(3)) + p[i] for i in range(3)]; wd = [sum(R[i][j] * d[j] for j in range(3)) for i in range(3)]
+            lines.append('Y %.17g %.17g %.17g %.17g %.17g %.17g' % tuple(wo + wd))
+    return lines, kinds
 
 def close_enough(a, b, rtol=1e-9):
     return abs(a - b) <= rtol * max(1.0, abs(a), abs(b))
@@ -212,6 +291,26 @@ def run(ctx):
         ctx.report('impl:tree-query-differs-from-brute-force', 'a mesh query answered through the OBB tree differs from brute force over all faces: query [%s] impl=%s brute=%s' % (q, a, b),
                    {'failing_input': mesh + [q.split(' (')[0], 'END'], 'impl': a, 'brute_force': b})
     ctx.extra['disagreements'] = len(dis); ctx.extra['certificate_failures'] = len(cert)
+    # ---------------- OrientedBoundingBox::intersectsRay alone vs the extracted slab test (C36_boxray_Model.v)
+    blines, bkinds = gen_boxrays(ctx.rng, 60 if not thorough else 600, 40)
+    rcb, ocb, ecb = sh([exe], input='\n'.join(blines) + '\n', timeout=600)
+    rcm, omb, emb = sh([os.path.join(exd, 'drv')], input=ocb, timeout=600)
+    ib = [l.split() for l in ocb.split('\n') if l.startswith('BR ')]; mb = [l.split() for l in omb.split('\n') if l.startswith('BR ')]
+    ys = [l for l in blines if l.startswith('Y ')]; bx = []; cur = None
+    for l in blines:
+        if l.startswith('B '): cur = l
+        else: bx.append(cur)
+    bdis = []
+    if not (len(ib) == len(mb) == len(ys)): ctx.broken.append(('correspondence:C36:boxray', 'box/ray outputs have different lengths: impl %d model %d rays %d' % (len(ib), len(mb), len(ys))))
+    else:
+        for y, b, x, m in zip(ys, bx, ib, mb):
+            if x[1] != m[1] or (x[1] == '1' and not close_enough(float(x[2]), float(m[2]))): bdis.append((b, y, ' '.join(x), ' '.join(m)))
+    ctx.add_cases(len(ys), len(set(ys)))
+    ctx.extra['box_ray'] = {'boxes': sum(1 for l in blines if l.startswith('B ')), 'rays': len(ys), 'hits': sum(1 for x in ib if x[1] == '1'), 'kinds': dict(sorted(bkinds.items())), 'disagreements': len(bdis)}
+    for b, y, x, m in bdis[:1]:
+        ctx.broken.append(('correspondence:C36:boxray', 'OrientedBoundingBox::intersectsRay differs from the slab-test model: box [%s] ray [%s] impl=%s model=%s' % (b, y, x, m)))
+        ctx.report('impl:box-ray-test-differs', 'OrientedBoundingBox::intersectsRay differs from the proved slab test: box [%s] ray [%s]: impl=%s model=%s' % (b, y, x, m),
+                   {'failing_input': [b, y], 'replay_cmd': 'printf "%s\\n%s\\n" | %s' % (b, y, exe), 'impl': x, 'model': m})
     # known finding: the inside flag of findNearestPoint when the nearest point is on an edge or a vertex
     ctx.extra['inside_flag_vs_parity'] = {'queries_with_nearest_point_on_edge_or_vertex': hist.get('near_on_edge_or_vertex', 0), 'wrong_inside_flags': len(inside_wrong)}
     WIT = ['MESH 4 4', 'v -0.96765695972614352 0.913321926381917 0.84708999971589294', 'v 0.33632455537193962 0.7178783991529113 1.230367864688529',
